@@ -330,6 +330,35 @@ theorem qo_set {n n' : Node} (k : Nat) (e : ExitE) (h : n'.exits = set n.exits k
 section
 variable {B : Type} (A : Aead B)
 
+theorem rmCircuit_exits (n : Node) (cid : Nat) : (rmCircuit n cid).exits = n.exits := by
+  unfold rmCircuit
+  repeat' (first | rfl | split)
+
+theorem rmRelays_exits (n : Node) (a b : Nat) : (rmRelays n a b).exits = n.exits := by
+  unfold rmRelays
+  split <;> rfl
+
+theorem rmCircuit_other (n : Node) (cid : Nat) :
+    (rmCircuit n cid).relays = n.relays ∧ (rmCircuit n cid).exits = n.exits := by
+  unfold rmCircuit
+  repeat' (first | exact ⟨rfl, rfl⟩ | split)
+
+theorem rmExit_other (n : Node) (cid : Nat) :
+    (rmExit n cid).relays = n.relays ∧ (rmExit n cid).circuits = n.circuits := by
+  unfold rmExit
+  split <;> exact ⟨rfl, rfl⟩
+
+theorem rmRelays_other (n : Node) (a b : Nat) :
+    (rmRelays n a b).exits = n.exits ∧ (rmRelays n a b).circuits = n.circuits := by
+  unfold rmRelays
+  split <;> exact ⟨rfl, rfl⟩
+
+theorem rmExit_qo (n : Node) (cid : Nat) (hq : QueueOwn n) : QueueOwn (rmExit n cid) := by
+  unfold rmExit
+  split
+  · exact hq
+  · exact qo_del _ rfl hq
+
 theorem sendCell_exits (n : Node) (dst : Nat) (c : Cell B) (x : Bool) : (sendCell A n dst c x).1.exits = n.exits := by
   unfold sendCell
   cases get n.circuits c.cid <;> (dsimp only; split <;> rfl)
@@ -400,6 +429,7 @@ theorem oursCreated_exits (n : Node) (cid : Nat) (circ : Circ) (key authPk dhRef
   unfold oursCreated
   repeat' (first
     | rfl
+    | exact rmCircuit_exits _ _
     | (rw [sendMsg_exits])
     | split
     | dsimp only)
@@ -484,15 +514,15 @@ theorem onDestroy_qo (n : Node) (signer cid : Nat) (ok : Bool) (reason : Nat) (h
   split
   · exact hq
   · split
-    · exact qo_same rfl hq
+    · exact qo_same (rmRelays_exits _ _ _) hq
     · unfold destroyLocal
       split
       · split
-        · exact qo_del _ rfl hq
+        · exact rmExit_qo _ _ hq
         · unfold destroyCircuit
-          repeat' (first | exact hq | exact qo_same rfl hq | split)
+          repeat' (first | exact hq | exact qo_same (rmCircuit_exits _ _) hq | split)
       · unfold destroyCircuit
-        repeat' (first | exact hq | exact qo_same rfl hq | split)
+        repeat' (first | exact hq | exact qo_same (rmCircuit_exits _ _) hq | split)
 
 theorem pingAll_exits (n : Node) (l : List (Nat × Circ)) : (pingAll A n l).1.exits = n.exits := by
   induction l generalizing n with
@@ -543,8 +573,8 @@ def exR2 : Node := { Node.init 2 with relays := [(600, ⟨700, ⟨3, 3, 72⟩, .
 def exX : Node := { Node.init 3 with exits := [(700, ⟨⟨2, 2, 73⟩, 3, []⟩)], created := [700] }
 /-- relay 1 after a long life: both entries of circuit 500/600 have relayed far more than 8 cells -/
 def exR1old : Node := { Node.init 1 with relays := [(500, ⟨600, ⟨2, 2, 71⟩, .fwd, 4000⟩), (600, ⟨500, ⟨9, 9, 71⟩, .bwd, 3000⟩)] }
-def exO : Node := { Node.init 9 with circuits := [(500, ⟨3, [⟨1, 1, 71⟩, ⟨2, 0, 72⟩, ⟨3, 0, 73⟩], none, 0, 3⟩)] }
+def exO : Node := { Node.init 9 with circuits := [(500, ⟨3, [⟨1, 1, 71⟩, ⟨2, 0, 72⟩, ⟨3, 0, 73⟩], none, 0, 3, false⟩)] }
 /-- an originator (node 9) whose circuit 500 has ONE verified hop (key 71) and is being extended to a second -/
-def exO1 : Node := { Node.init 9 with circuits := [(500, ⟨3, [⟨1, 1, 71⟩], some ⟨2, 0, 99⟩, 5, 2⟩)] }
+def exO1 : Node := { Node.init 9 with circuits := [(500, ⟨3, [⟨1, 1, 71⟩], some ⟨2, 0, 99⟩, 5, 2, false⟩)] }
 
 end Ipv8.C05
